@@ -238,11 +238,20 @@ def h_decode(c):
   on = _bits(c, 'o', T, Kp) if use_on else None
   of = _bits(c, 'x', T, Kp) if use_off else None
   min_ms = c.real('min_ms', 0, 100)
+  use_vel = c.params.get('velocities')
+  vv = None
+  kw = {}
+  if use_vel:
+    # velocity estimates at the onsets (only read when onsets are supplied)
+    vv = [[c.real('v_%d_%d' % (t, k), 0, 1) for k in range(Kp)]
+          for t in range(T)]
+    kw = dict(velocity_values=c.np.array([list(r) for r in vv]),
+              velocity_scale=100, velocity_bias=5)
   seq = sl.pianoroll_to_note_sequence(
       _to_np(c, fr), fps, min_ms,
       min_midi_pitch=21,
       onset_predictions=_to_np(c, on) if use_on else None,
-      offset_predictions=_to_np(c, of) if use_off else None)
+      offset_predictions=_to_np(c, of) if use_off else None, **kw)
   exp = []
   # sym mode: frame length is the Python float 1/fps, as in the implementation
   fl_sec = 1 / fps
@@ -252,15 +261,18 @@ def h_decode(c):
     fc = [bool(of[t][k]) for t in range(T)] if use_off else None
     for (a, b) in _runs(col, oc, fc):
       s, e = a * fl_sec, b * fl_sec
-      exp.append((c.Not((e - s) * 1000 < min_ms), (s, e, k + 21)))
-  got = [(n.start_time, n.end_time, n.pitch) for n in seq.notes]
+      if use_vel and use_on:
+        vel = c.Floor(vv[a][k] * 100 + 5)  # the estimate at the note's onset
+      else:
+        vel = 70
+      exp.append((c.Not((e - s) * 1000 < min_ms), (s, e, k + 21, vel)))
+  got = [(n.start_time, n.end_time, n.pitch, n.velocity) for n in seq.notes]
   c.check(K.multiset_eq(c, got, exp),
           'notes = maximal runs of active frames (minus those shorter than '
-          'min_duration_ms)')
+          'min_duration_ms), each with the velocity of its own onset')
   c.check(c.eq(seq.total_time, (T + 1) * fl_sec), 'total_time covers the roll')
   for n in seq.notes:
-    c.check(c.And(n.velocity == 70, n.end_time <= seq.total_time),
-            'default velocity; notes inside the sequence')
+    c.check(n.end_time <= seq.total_time, 'notes inside the sequence')
   c.cover('a run is dropped for being too short',
           c.Or([c.Not(cd) for cd, _ in exp] or [False]))
 
@@ -463,6 +475,11 @@ def jobs(tier):
   add('h_decode', T=3, K=1, fps='50')
   add('h_decode', T=3, K=2, fps='31.25', budget=600)
   add('h_decode', T=2, K=1, fps='16', onsets=True)
+  # a fresh onset inside a run splits it; each half keeps its own velocity
+  add('h_decode', T=3, K=1, fps='16', onsets=True, velocities=True, budget=900)
+  add('h_decode', T=4, K=1, fps='32', onsets=True, offsets=True,
+      velocities=True, budget=900)
+  add('h_decode', T=3, K=2, fps='16', onsets=True, velocities=True, budget=900)
   add('h_decode', T=2, K=1, fps='100', onsets=True, offsets=True)
   add('h_onsets_only', T=2, K=2, fps='62.5')
   add('h_inverse', N=1, fps='16', frames=4)
